@@ -24,7 +24,8 @@ var extremeIDs = []int64{0, 1, -1, 2, -2, 7, -7, 100, -100, 1<<43 - 1, -(1<<43 -
 
 // text values, among them the empty string (a legal value with its own hash) in scalar and list form
 func wordsShape(r *Rand, n int) TV {
-	words := []string{"", "a", "1", "", "7"}
+	// "北京"/"南京", "é"/"è": different values that agree in the first byte of every character
+	words := []string{"", "a", "1", "", "7", "北京", "南京", "é", "è"}
 	if n <= 1 && r.Chance(60) {
 		if r.Chance(15) {
 			return tvJSON(pick(r, []string{"", "1", "7"}))
@@ -355,6 +356,13 @@ func init() {
 			} {
 				add(eCase{Kind: kind, Policy: "error", Docs: docs, Queries: []eQuery{{}, {A: []eAssign{{F: 0, V: tvInt("int", 1)}}}, {A: []eAssign{{F: 0, V: tvInt("int", 2)}, {F: 5, V: tvStr("x")}}}}})
 			}
+			// default-container fields only: BuildIndex, then a document introducing a NEW field, then BuildIndex again
+			// without Reset -- the index that is finally built must know the late field
+			add(eCase{Kind: kind, Policy: "error", Rebuild: 1, Docs: []eDoc{
+				{ID: 1, Cons: []eConj{{{F: 0, Inc: true, V: tvSlice("[]int", tvInt("int", 1))}}}},
+				{ID: 2, Cons: []eConj{{{F: 1, Inc: true, V: tvSlice("[]int", tvInt("int", 2))}}, {{F: 0, Inc: true, V: tvSlice("[]int", tvInt("int", 3))}, {F: 2, Inc: false, V: tvStr("x")}}}},
+			}, Queries: []eQuery{{A: []eAssign{{F: 1, V: tvInt("int", 2)}}}, {A: []eAssign{{F: 0, V: tvInt("int", 3)}, {F: 2, V: tvStr("x")}}}, {A: []eAssign{{F: 0, V: tvInt("int", 3)}, {F: 2, V: tvStr("y")}}},
+				{A: []eAssign{{F: 0, V: tvInt("int", 1)}, {F: 1, V: tvInt("int", 2)}}}, {}}})
 			for i := 0; i < n; i++ {
 				o.nFields = 1 + r.Intn(5)
 				if i%10 == 9 { // wide: many fields, so that a retrieval sorts and scans 9 and more field cursors
